@@ -894,7 +894,7 @@ def run_c09(ctx):
         elif c < 0.995:
             pre.append(rbytes(rng, rng.choice([1, 2, 3, 255, 256, 1023, 1024])))
         else:
-            pre.append(rbytes(rng, rng.choice([65534, 65535, 65536, 65537, 70000, 131073])))
+            pre.append(rbytes(rng, rng.choice([65534, 65535, 65536, 65537, 70000, 131073, 65500, 65510, 65520, 65523, 65524, 65530, 131060])))
     a = ['ENC\t%s\t' % v for v in vals]
     b = ['ENC\t%s\t%s' % (v, p.hex()) for v, p in zip(vals, pre)]
     ra = run_compare(ctx, rep, a, ['enc_empty'] * len(a), o_enc_len)
@@ -908,7 +908,7 @@ def run_c09(ctx):
                 rep.fail('enc_into(p, v) != p ++ encode(v)', case=b[i][:600], executor=w, into_empty=x[:300], into_prefix=y[:300])
     # AVPs with prefixes
     avs = [rand_avp(rng) for _ in range(ctx.scale(2000, 20000))]
-    pa = [rbytes(rng, rng.randrange(1, 40)) for _ in avs]
+    pa = [rbytes(rng, rng.randrange(1, 40)) if rng.random() < 0.99 else rbytes(rng, rng.choice([65530, 65533, 65534, 65535, 65536, 131070])) for _ in avs]
     a2 = ['ENCA\t%s\t' % v for v in avs]
     b2 = ['ENCA\t%s\t%s' % (v, p.hex()) for v, p in zip(avs, pa)]
     ra2 = run_compare(ctx, rep, a2, ['enca_empty'] * len(a2), o_enc_len)
@@ -1141,8 +1141,13 @@ def run_c12(ctx):
             plain = be(6 + len(vp), 2) + vp + rbytes(rng, rng.randrange(0, 20))
             plain += bytes((16 - len(plain) % 16) % 16)
             val = ref_encrypt_plain(t, plain, s, rv)
-        else:
+        elif c < 0.98:
             val = rbytes(rng, rng.choice([0, 1, 8, 15, 16, 17, 24, 32, 40, 48, rng.randrange(0, 100)]))
+        else:
+            nblk = rng.choice([65, 66, 70])
+            tot = rng.choice([1023, 1024, 1025, 1040, 16 * nblk + 4, 16 * nblk + 5])
+            plain = (be(tot & 0xffff, 2) + (valid_payload(rng, t) or b'') + rbytes(rng, 16 * nblk))[:16 * nblk]
+            val = ref_encrypt_plain(t, plain, s, rv)
         rvl.append('REVEAL\tHidden(%d,%s)\t%s\t%s' % (t, val.hex(), s.hex(), rv.hex()))
     run_compare(ctx, rep, rvl, ['reveal'] * len(rvl), lambda c, r: r)
     md = ['MD5\t' + rbytes(rng, n).hex() for n in list(range(0, 130)) + [rng.randrange(0, 300) for _ in range(ctx.scale(300, 3000))]]
@@ -1172,14 +1177,14 @@ def reveal_cases(ctx, n):
         c = rng.random()
         me = False
         if c < 0.35:
-            nblk = rng.choice([1, 1, 2, 3, 4])
+            nblk = rng.choice([1, 1, 2, 3, 4, 4]) if rng.random() < 0.97 else rng.choice([65, 66, 70])
             avail = 16 * nblk - 2
             # decrypted total sits at each boundary: available-1, available, available+1, 5, 6, 1023, 1024
-            tot = rng.choice([avail + 6 - 1, avail + 6, avail + 6 + 1, 5, 6, 7, 1023, 1024, 0, 65535, rng.randrange(0, 80)])
+            tot = rng.choice([avail + 6 - 1, avail + 6, avail + 6 + 1, 5, 6, 7, 1023, 1024, 1025, 1040, 0, 65535, rng.randrange(0, 80)])
             plain = be(tot & 0xffff, 2) + (valid_payload(rng, t) or b'') + rbytes(rng, 16 * nblk)
             plain = plain[:16 * nblk]
             val = ref_encrypt_plain(t, plain, s, rv)
-            me = tot < 6 or tot - 6 > avail
+            me = tot < 6 or tot > 1023 or tot - 6 > avail
             tag = 'crafted_len'
         elif c < 0.5:
             n = rng.choice([0, 1, 2, 8, 15, 17, 24, 31, 33, 40, rng.randrange(0, 200)])
